@@ -107,6 +107,7 @@ void renumber(Build& b, Rng& g) {
 
 std::string family_of(const std::string& name) {
     if (name.find("star") != std::string::npos) return "star";
+    if (name.find("cup") != std::string::npos) return "cup";
     if (name.find("ell") != std::string::npos) return "ellipsoid";
     if (name.compare(0, 3, "ico") == 0) return "icosphere";
     if (name.compare(0, 3, "box") == 0) return "box";
